@@ -31,9 +31,17 @@ def classify(prop, f, tr, trace_text):
                         got[k] = True
         setups = {}
         for p, w in ops:
-            if w[0] == 'setup':
+            if w[0] in ('setup', 'reconnect'):
                 setups[p] = setups.get(p, 0) + 1
-        if any(v > 1 for v in setups.values()):
+        away, deleted_while_away = set(), False
+        for p, w in ops:
+            if w[0] == 'removetransports':
+                away.add(p)
+            if w[0] == 'reconnect':
+                away.discard(p)
+            if w[0] == 'despawn' and away and p not in away:
+                deleted_while_away = True
+        if any(v > 1 for v in setups.values()) and deleted_while_away and sig == 'entity-sets-differ':
             return 'S11-reconnect-keeps-deleted'
     if sig in ('not-quiescent', 'parents-differ', 'traffic-above-bound', 'child-not-listed-once'):
         # S19: the same child re-parented twice (different parents) with no quiescent point in between
